@@ -95,7 +95,12 @@ func checkC15(t *testing.T, c C15Case) *stats.Verdict {
 	// (ii) text round trip
 	if want != "" {
 		var back sse.Message
-		if err := back.UnmarshalText([]byte(want)); err != nil {
+		buf := []byte(want)
+		err := back.UnmarshalText(buf)
+		for i := range buf {
+			buf[i] = 'X' // the caller owns its buffer and reuses it
+		}
+		if err != nil {
 			return v.Failf("", "UnmarshalText(MarshalText(m)) failed: %v (wire %q)", err, want)
 		}
 		if got := back.String(); got != want {
